@@ -139,4 +139,34 @@ theorem bwdLoopSpec (L : List (List A)) (p : List A → Bool) (d : Int) (mk : In
       · omega
     · simp [loopN, hcond, hge, hbody c i g hi0 hg.1, hp, steps]
 
+/-! ### the `range` loop of the default arm: one `slices.Insert` per typed character -/
+
+open VaxisModel.Model.TextInput (TI insertChars) in
+/-- `o` after the loop: the last character seen, if any. -/
+def lastO (o : Option (List A)) : List (List A) → Option (List A)
+  | [] => o
+  | g :: gs => lastO (some g) gs
+
+open VaxisModel.Model.TextInput (TI insertChars) in
+theorem rangeSpec (x : String) (mk : List (List A) → Int → Option (List A) → Env A) (body : Env A → Res A) (off : Int)
+    (hset : ∀ content cursor o g, setV x (.str g) (mk content cursor o) = mk content cursor (some g))
+    (hbody : ∀ content cursor g, body (mk content cursor (some g)) =
+      if VaxisModel.Model.TextInput.inRange content cursor then
+        .ok (mk (content.take cursor.toNat ++ [g] ++ content.drop cursor.toNat) (cursor + 1) (some g))
+      else .err "slices.Insert out of range") :
+    ∀ (gs : List (List A)) (content : List (List A)) (cursor : Int) (o : Option (List A)),
+      rangeN x body (gs.map V.str) (mk content cursor o) =
+        match insertChars (⟨content, cursor, off, []⟩ : TI (List A)) gs with
+        | some m' => .ok (mk m'.content m'.cursor (lastO o gs))
+        | none => .err "slices.Insert out of range" := by
+  intro gs
+  induction gs with
+  | nil => intro content cursor o; simp [rangeN, insertChars, lastO]
+  | cons g gs ih =>
+    intro content cursor o
+    by_cases hr : VaxisModel.Model.TextInput.inRange content cursor = true
+    · simp only [List.map_cons, rangeN, hset, hbody, hr, if_true, insertChars, lastO]
+      exact ih _ _ _
+    · simp [rangeN, hset, hbody, hr, insertChars]
+
 end VaxisModel.Lemmas.EdLangLoops
